@@ -39,9 +39,15 @@ type c03case struct {
 	Root  searchRoot
 	Cfg   string
 	Depth int
+	Seed  int64 `json:",omitempty"` // Zobrist seed of the board under test (bridge.DegenerateSeed: every position hashes to 0)
 }
 
-func (cs c03case) String() string { return fmt.Sprintf("%s d=%d %v", cs.Cfg, cs.Depth, cs.Root) }
+func (cs c03case) String() string {
+	if cs.Seed == bridge.DegenerateSeed {
+		return fmt.Sprintf("%s d=%d %v (every position hashing to 0)", cs.Cfg, cs.Depth, cs.Root)
+	}
+	return fmt.Sprintf("%s d=%d %v", cs.Cfg, cs.Depth, cs.Root)
+}
 
 // sameState compares board snapshots; a move-less root that the search adjudicated as mate or
 // stalemate is still the same game state.
@@ -59,7 +65,7 @@ func sameState(before, after string, rootHasMoves bool) bool {
 func runC03(ctx context.Context, cs c03case, budget int64) (cls, msg string, skipped bool) {
 	cfg := cfgByName(cs.Cfg)
 	s, rcfg, reset := cfg.Make()
-	b, g := newSearchBoards(cs.Root, 0)
+	b, g := newSearchBoards(cs.Root, cs.Seed)
 	rootMoves := g.Cur().Legal()
 	before := bridge.Snapshot(b, true)
 	_, score, pv, err := s.Search(ctx, &search.Context{TT: search.NoTranspositionTable{}}, b, cs.Depth)
@@ -207,12 +213,17 @@ func depthsFor(c *harness.Check, r searchRoot, cfg string) []int {
 
 func checkC03(c *harness.Check) {
 	mustAnchors(c)
-	c.Rule = "search corpus (mate/stalemate nets, small endgames, tactical fragments, roots whose history makes a repetition / the fifty-move rule / insufficient material occur inside the tree - with equal and with unequal material -, five capture-rich middlegames at depth <= 2-3) x depth 0..D x 7 configurations (full+static, full+captures-only quiescence, TUROCHAMP quiescence, SARGON one-ply-if-checked without under-promotions, BERNSTEIN plausible moves at limits 7/3/1); each case: full-window AlphaBeta.Search vs unpruned reference negamax/quiescence under the reference score order, PV legal + within depth + first move attains the value + non-empty when it must be, board snapshot unchanged; and searches LIMITED TO A VARIATION (Context.Ponder = each legal first move of the net and tactical roots): value = minus the reference value of that move's child, variation starts with the move. distinct_nontrivial = distinct (root, config, depth, value) with depth >= 1"
+	c.Rule = "search corpus (mate/stalemate nets, small endgames, tactical fragments, roots whose history makes a repetition / the fifty-move rule / insufficient material occur inside the tree - with equal and with unequal material, and again on boards whose Zobrist table maps every position to 0 -, five capture-rich middlegames at depth <= 2-3) x depth 0..D x 7 configurations (full+static, full+captures-only quiescence, TUROCHAMP quiescence, SARGON one-ply-if-checked without under-promotions, BERNSTEIN plausible moves at limits 7/3/1); each case: full-window AlphaBeta.Search vs unpruned reference negamax/quiescence under the reference score order, PV legal + within depth + first move attains the value + non-empty when it must be, board snapshot unchanged; and searches LIMITED TO A VARIATION (Context.Ponder = each legal first move of the net and tactical roots): value = minus the reference value of that move's child, variation starts with the move. distinct_nontrivial = distinct (root, config, depth, value) with depth >= 1"
 	var cases []c03case
 	for _, r := range append(append([]searchRoot(nil), searchRoots...), richRoots...) {
 		for _, cfg := range searchCfgs {
 			for _, d := range depthsFor(c, r, cfg.Name) {
-				cases = append(cases, c03case{r, cfg.Name, d})
+				cases = append(cases, c03case{Root: r, Cfg: cfg.Name, Depth: d})
+				if len(r.Moves) > 0 {
+					// a game with a history, once more on a board whose hash table maps every position to 0:
+					// draws inside the tree are statements about positions, not about hashes
+					cases = append(cases, c03case{Root: r, Cfg: cfg.Name, Depth: d, Seed: bridge.DegenerateSeed})
+				}
 			}
 		}
 	}
@@ -255,7 +266,7 @@ func checkC03(c *harness.Check) {
 		}
 		for _, cfgName := range []string{"full/material", "full/captures-quiescence", "sargon", "bernstein/3"} {
 			for d := 1; d <= c.Pick(3, 4); d++ {
-				pcases = append(pcases, c03case{r, cfgName, d})
+				pcases = append(pcases, c03case{Root: r, Cfg: cfgName, Depth: d})
 			}
 		}
 	}
